@@ -82,6 +82,8 @@ def snapshots(c):
             faults[op[1]] = (op[2], op[3])
         elif op[0] == "unfault":
             faults.pop(op[1], None)
+        elif op[0] == "switch":
+            tree = apply_op(tree, op[1])
         else:
             tree = apply_op(tree, op)
     return out
@@ -94,12 +96,15 @@ def mutate(v):
             mutate(x)
         v["__scribble__"] = 1
         for k in list(v):
-            if k != "__scribble__" and not isinstance(v[k], (dict, list, set)):
+            if k != "__scribble__" and not isinstance(v[k], (dict, list, set, tuple)):
                 v[k] = "scribbled"
     elif isinstance(v, list):
         for x in v:
             mutate(x)
         v.append("scribbled")
+    elif isinstance(v, tuple):            # !!omap / !!pairs give lists of tuples: what hangs below a tuple is reachable too
+        for x in v:
+            mutate(x)
     elif isinstance(v, set):
         v.add("scribbled")
 
@@ -178,9 +183,33 @@ def get(src, sysid, pd, pv):
         return ("exc", exc_code(e))
 
 
+def repoint(base, link, target):
+    """atomic switch of a symbolic link (deployment of a new release)"""
+    tmp = os.path.join(base, ".newlink")
+    if os.path.lexists(tmp):
+        os.remove(tmp)
+    os.symlink(target, tmp)
+    os.replace(tmp, os.path.join(base, link))
+
+
 def run_real(c):
-    root = yamlfs.new_root()
+    import logging
+    base_dir = yamlfs.new_root()
+    root = base_dir
+    release = 0
+    lg = logging.getLogger("vinegar")
+    old_level = lg.level
+    if c.get("loglevel"):
+        lg.setLevel(getattr(logging, c["loglevel"]))
     try:
+        if c.get("linked"):
+            # root_dir is a symbolic link ("current -> releases/N"), below a directory with unusual characters
+            os.makedirs(os.path.join(base_dir, "rel 0 %41 \u00e9"))
+            os.symlink("rel 0 %41 \u00e9", os.path.join(base_dir, "cur rent"))
+            root = os.path.join(base_dir, "cur rent")
+        elif c.get("rootname"):
+            root = os.path.join(base_dir, c["rootname"])
+            os.makedirs(root)
         tree = dict(c["base"])
         yamlfs.materialise(tree, root)
         # one long-lived source - or two over the same directory serving the gets alternately (caching is transparent,
@@ -209,6 +238,15 @@ def run_real(c):
                 tree = apply_op(tree, ("edit", op[2], op[3]))
             elif op[0] == "pre":
                 pd, pv = yamlfs.PRECEDING[op[1]]
+            elif op[0] == "switch":
+                # a new release directory with the tree after the inner operation; then the link is re-pointed
+                new = apply_op(tree, op[1])
+                release += 1
+                name = "rel %d %%41 \u00e9" % release
+                os.makedirs(os.path.join(base_dir, name))
+                yamlfs.materialise(new, os.path.join(base_dir, name))
+                repoint(base_dir, "cur rent", name)
+                tree = new
             elif op[0] == "fault":
                 faults[op[1]] = (op[2], op[3])
                 if op[2] == "read":
@@ -222,7 +260,8 @@ def run_real(c):
                 tree = new
         return out
     finally:
-        shutil.rmtree(root, ignore_errors=True)
+        lg.setLevel(old_level)
+        shutil.rmtree(base_dir, ignore_errors=True)
 
 
 # ----------------------------------------------------------------------------- encoding
@@ -368,7 +407,8 @@ class C12(Check):
                  "generated edit histories")
     rule = ("case = (base tree of 4 files with/without templates, history of edit/delete/create/swap file<->init/"
             "set-preceding/get ops, cache_size in {0,1,2,64}, engine on/off); exhaustive: every pair of mutations each "
-            "followed by gets for two systems (fault injection: os.stat or open failing with EIO/EACCES/ESTALE for one file during some calls, then recovering; "
+            "followed by gets for two systems (root_dir as a re-pointed symbolic link and with unusual characters, logging levels, YAML tags that give tuples / "
+            "bytes / dates; fault injection: os.stat or open failing with EIO/EACCES/ESTALE for one file during some calls, then recovering; "
             "a file replaced between the template loader's two accesses during a call; base trees: plain, templated, a list/set-merging pair with merge flags on whose later file is edited, a file ending in a "
             "block scalar whose trailing line breaks alone change, and one where a non-leaf file with a relative "
             "include is reached twice with a conflicting piece in between and can be swapped to init.yaml); random histories up to 10 ops incl. random trees; the D13 witness; "
@@ -442,6 +482,32 @@ class C12(Check):
                ("get", "s1"), ("delete", "l20.yaml"), ("get", "s1"), ("edit", "l20.yaml", "w: 1\n"), ("get", "s1")]
         for cs in (1, 64):
             yield {"base": chain, "ops": ops, "cache_size": cs, "engine": False, "ml": False, "ms": True, "allow_empty": False}
+        # root_dir is a symbolic link that is re-pointed to a new release while the source lives (and plain roots with
+        # unusual characters); logging level as a dimension
+        sw = [("edit", "a.yaml", "k: 4\n"), ("edit", "top.yaml", "'*': [d, a]\n"), ("delete", "d/x.yaml"), ("edit", "d/x.yaml", "m: 5\n"),
+              ("edit", "d.yaml", "z: 1\n")]
+        for i, m1 in enumerate(sw):
+            for engine, b in ((False, BASE), (True, BASE_T)):
+                m2 = sw[(i + 1) % len(sw)]
+                ops = [("get", "s1"), ("switch", m1), ("get", "s1"), ("get", "s2"), m2, ("get", "s1"), ("switch", m2), ("get", "s1"),
+                       ("switch", ("edit", "a.yaml", b["a.yaml"])), ("get", "s1")]
+                yield {"base": b, "ops": ops, "cache_size": (0, 1, 64)[i % 3], "engine": engine, "ml": False, "ms": True,
+                       "allow_empty": False, "linked": True, "loglevel": ("DEBUG", "INFO", "WARNING")[i % 3]}
+        for name in ("r %41", "\u00e9 dir", "a b/c", "x%", "UP"):
+            ops = [("get", "s1"), ("edit", "a.yaml", "k: 4\n"), ("get", "s1"), ("swap", "a"), ("get", "s1")]
+            yield {"base": BASE_T, "ops": ops, "cache_size": 2, "engine": True, "ml": False, "ms": True, "allow_empty": False,
+                   "rootname": name, "loglevel": "DEBUG"}
+        # values that yaml.safe_load does not turn into dict / list / set / scalar: !!omap and !!pairs (lists of TUPLES whose
+        # members can be mutable), !!binary (bytes), !!timestamp (date objects); every returned tree is scribbled over
+        exotic = ["bo: !!omap [ disk: {timeout: 5}, net: [1, 2] ]\nm: 1\n", "bo: !!pairs [ a: {x: 1}, a: [2] ]\n",
+                  "bin: !!binary aGVsbG8=\nwhen: 2001-12-14\nn: {t: !!omap [ k: {v: 1} ]}\n",
+                  "bo: !!omap [ disk: {timeout: 6} ]\nst: !!set {a: null}\n"]
+        for i, t1 in enumerate(exotic):
+            t2 = exotic[(i + 1) % len(exotic)]
+            for ml in (False, True):
+                ops = [("edit", "d/x.yaml", t1), ("get", "s1"), ("get", "s1"), ("edit", "a.yaml", "k: 9\ninclude: [d.x]\n"), ("get", "s1"),
+                       ("edit", "d/x.yaml", t2), ("get", "s1"), ("get", "s2"), ("get", "s1")]
+                yield {"base": BASE, "ops": ops, "cache_size": 64, "engine": False, "ml": ml, "ms": True, "allow_empty": False}
         # D25: a data file called like the marker that starts the list of parent files is an ordinary file
         tf = {"top.yaml": "'*': ['top file', b]\n", "top file.yaml": "t: 1\n", "b.yaml": "m: 1\ninclude: ['top file']\n"}
         yield {"base": tf, "ops": [("get", "s1"), ("edit", "top file.yaml", "t: 2\n"), ("get", "s1"),
@@ -551,7 +617,8 @@ class C12(Check):
         if c.get("kind") == "lru":
             return {"kind": "lru", "cache_size": c["cap"], "ops": [list(o) for o in c["ops"]]}
         return {"base": c["base"], "ops": [list(op) for op in c["ops"]], "cache_size": c["cache_size"], "engine": c["engine"],
-                "long_lived_sources": c.get("nsrc", 1),
+                "long_lived_sources": c.get("nsrc", 1), "root_dir_is_symlink": bool(c.get("linked")),
+                "root_dir_name": c.get("rootname"), "loglevel": c.get("loglevel"),
                 "merge_lists": c["ml"], "merge_sets": c["ms"], "allow_empty_top": c["allow_empty"]}
 
     def shrink(self, c):
